@@ -83,6 +83,16 @@ class SeqVal:
         return f"SeqVal<{self.tag}>(len={self.length})"
 
 
+class NpScalar(Sym):
+    """a numpy scalar (numpy.float64, numpy.int64 ...): a symbolic number that is an instance of its numpy class, not of the
+    python number types it does not derive from"""
+    __slots__ = ("np_scalar", "cls")
+
+    def __init__(self, e, np_scalar, cls):
+        Sym.__init__(self, e)
+        self.np_scalar, self.cls = np_scalar, cls
+
+
 class SymList:
     """Mutable list cell whose content is a closure sequence."""
     __slots__ = ("seq",)
